@@ -541,9 +541,9 @@ def run(replay=None):
     mc1 = ex.submit(common.model_check, 'MC_WalletKeys', 'MC_WalletKeys_thorough.cfg' if thorough else 'MC_WalletKeys.cfg',
                     workers=4, expect_actions=acts)
     mc2 = ex.submit(common.model_check, 'MC_WalletKeys', 'MC_WalletKeys_watch_thorough.cfg' if thorough else 'MC_WalletKeys_watch.cfg',
-                    workers=2, expect_actions=acts)
+                    workers=3, expect_actions=acts)
     mc3 = ex.submit(common.model_check, 'MC_WalletKeys', 'MC_WalletKeys_ms_thorough.cfg' if thorough else 'MC_WalletKeys_ms.cfg',
-                    workers=2, expect_actions=acts)
+                    workers=3, expect_actions=acts)
     if replay:
         jobs = [replay['case']['job']]
     else:
